@@ -26,7 +26,12 @@ func realMain() int {
 	// second and poor scaling.  Collect on a memory budget instead.
 	if os.Getenv("GOGC") == "" && os.Getenv("GOMEMLIMIT") == "" {
 		debug.SetGCPercent(-1)
-		debug.SetMemoryLimit(4 << 30)
+		if os.Args[1] == "run" {
+			debug.SetMemoryLimit(4 << 30)
+		} else {
+			// child processes (C15 runs up to 16 of them at once, C16 under the race detector) and tools
+			debug.SetMemoryLimit(384 << 20)
+		}
 	}
 	seed := int64(1)
 	if s := os.Getenv("VERIF_SEED"); s != "" {
